@@ -1,16 +1,18 @@
 package c05
 
 import (
+	"sync"
+
 	"github.com/bmeg/grip/accounts"
 	"github.com/bmeg/grip/gripql"
 	"google.golang.org/grpc"
 )
 
 var Table = map[string]accounts.Operation{
-	"/t.S/Good": accounts.Read,
-	"/t.S/Early": accounts.Read,
+	"/t.S/Good":      accounts.Read,
+	"/t.S/Early":     accounts.Read,
 	"/t.S/Unchecked": accounts.Read,
-	"/t.S/WrongOp": accounts.Read,
+	"/t.S/WrongOp":   accounts.Read,
 }
 
 func Interceptor(auth accounts.Authenticate, access accounts.Access) grpc.StreamServerInterceptor {
@@ -57,4 +59,20 @@ func Interceptor(auth accounts.Authenticate, access accounts.Access) grpc.Stream
 		}
 		return nil
 	}
+}
+
+// ---- R6 ----
+
+var decisions sync.Map
+
+func OkKeySeparated(user, graph, op string) bool {
+	key := user + "\x00" + graph + "\x00" + op
+	_, ok := decisions.Load(key)
+	return ok
+}
+
+func BadKeyConcatenated(user, graph, op string) bool {
+	key := user + graph + op
+	_, ok := decisions.Load(key)
+	return ok
 }
